@@ -46,13 +46,9 @@ THEOREMS = [
     "PV.C10.int_value_spec",
     "PV.C10.int_value_backend_independent",
 ]
-_LEXFILTER = os.path.join(core.LEAN, "PV", "C10", "LexFilter.lean")
-if os.path.exists(_LEXFILTER):
-    LEAN_TARGETS.append("PV.C10.LexFilter")
-    _src = open(_LEXFILTER, encoding="utf-8").read()
-    for _t in ("full_lexer_filter", "softkw_commutes_filter", "softkw_commutes_filter_fails"):
-        if re.search(r"^theorem " + _t + r"\b", _src, re.M):
-            THEOREMS.append("PV.C10." + _t)
+_LEXFILTER = os.path.join(core.LEAN, "PV", "C10", "LexFilter.lean")   # lexer model builder; imported by PV/C10/Thm.lean
+THEOREMS += ["PV.C10.full_lexer_filter", "PV.C10.softkw_commutes_filter_of_safe", "PV.C10.softkw_commutes_filter",
+             "PV.C10.softkw_commutes_filter_fails"]
 
 TRUSTED = [
     "Lean 4.33.0 kernel; axioms limited to propext, Classical.choice, Quot.sound",
@@ -70,10 +66,10 @@ TRUSTED = [
 PARTIAL = [
     "equality of trees and errors between builds is established by running the four builds on the same texts (streams "
     "parse-*): there is no theorem about the LALRPOP automaton behind the configuration-dependent front ends",
-    "full-lexer: the token-level theorems full_lexer_filter / softkw_commutes_filter belong to lean/PV/C10/LexFilter.lean (lexer "
-    "model builder)" + ("" if os.path.exists(_LEXFILTER) else " — PENDING, not part of this run") +
-    "; softkw_commutes_filter holds only under a side condition: the `type` look-ahead of soft_keywords.rs stops at a "
-    "Comment/NonLogicalNewline token (known finding type-softkw-lookahead-sees-trivia-tokens)",
+    "full-lexer: the token-level theorems full_lexer_filter / softkw_commutes_filter are about the lexer MODEL (lean/PV/Lexer, tied to "
+    "lexer.rs by the C05 correspondence), proved in lean/PV/C10/LexFilter.lean"
+    "; softkw_commutes_filter holds only under the side condition SoftSafe: the `type` look-ahead of soft_keywords.rs stops at a "
+    "Comment/NonLogicalNewline token (softkw_commutes_filter_fails; known finding type-softkw-lookahead-sees-trivia-tokens)",
     "optional_range_erasure / mandatory_ranges_kept are about the model of tree construction (same grammar action, "
     "OptionalRange::new per configuration); that every grammar action builds optional ranges only through optional_range() is "
     "type-checked by rustc (EmptyRange vs TextRange), and fold_cfg_matches_schema re-checks the generated fold on every run",
@@ -92,7 +88,7 @@ LEVEL_TEXT = ("Theorems (Lean 4, machine-checked): erasing optional ranges makes
               "the binary built in default, full-lexer, all-nodes-with-ranges and num-bigint configurations; canonical trees and "
               "(error kind, offset) must be identical, and integer values are judged against CPython.")
 LEVEL_NOTE = ("Most of this property's assurance is differential (four builds); the theorems cover the two mechanisms that are "
-              "modelled (OptionalRange, integer values). Token-level full-lexer theorems are in PV/C10/LexFilter.lean when present.")
+              "modelled (OptionalRange, integer values). Token-level full-lexer theorems (lexer model) are in PV/C10/LexFilter.lean.")
 RULE = ("request lines sent to each of the four builds (parse) or to a build and the Lean model (int, optr); distinct = distinct "
         "request line; non-trivial = non-empty text")
 
